@@ -277,6 +277,12 @@ func extractUpdateScripts(f *ast.File) ([]bootLit, error) {
 			return nil, fmt.Errorf("updateScripts: expected fragment not found: %s", frag)
 		}
 	}
+	nsrc := normSpace(src)
+	for _, frag := range migParamFragments {
+		if !strings.Contains(nsrc, frag) {
+			return nil, fmt.Errorf("updateScripts: expected fragment (template parameter) not found: %s", frag)
+		}
+	}
 	// bootstrap statements, version read, loop — in this order at the top level of the body.
 	// The shape of the version read and of the loop is emitted as a fact (`versionRead`, `loopShape`) that
 	// Props/C18 compares with the shape the model was written for: a deviation breaks that obligation while
@@ -294,6 +300,17 @@ func extractUpdateScripts(f *ast.File) ([]bootLit, error) {
 		}
 		return strLit(c.Args[0])
 	}
+	migVerTables = [2]string{"", ""}
+	ast.Inspect(fd.Body, func(n ast.Node) bool {
+		if as, ok := n.(*ast.AssignStmt); ok && as.Tok == token.DEFINE && len(as.Lhs) == 1 && len(as.Rhs) == 1 {
+			if id, ok := as.Lhs[0].(*ast.Ident); ok && id.Name == "verTable" {
+				if s, ok := strLit(as.Rhs[0]); ok {
+					migVerTables[0] = s
+				}
+			}
+		}
+		return true
+	})
 	for _, st := range fd.Body.List {
 		if lit, ok := execLit(st); ok {
 			if stage != 0 {
@@ -309,6 +326,13 @@ func extractUpdateScripts(f *ast.File) ([]bootLit, error) {
 				for _, inner := range x.Body.List {
 					if lit, ok := execLit(inner); ok {
 						boots = append(boots, bootLit{lit, true})
+					}
+					if as, ok := inner.(*ast.AssignStmt); ok && len(as.Lhs) == 1 && len(as.Rhs) == 1 {
+						if id, ok := as.Lhs[0].(*ast.Ident); ok && id.Name == "verTable" {
+							if s, ok := strLit(as.Rhs[0]); ok {
+								migVerTables[1] = s
+							}
+						}
 					}
 				}
 			}
@@ -356,6 +380,7 @@ func extractUpdateScripts(f *ast.File) ([]bootLit, error) {
 
 var migVersionRead string
 var migLoopShape []string
+var migVerTables [2]string // the table the version is read from: without / with a configured cluster
 
 func extractEmbeds() (map[string]string, error) {
 	b, err := os.ReadFile(filepath.Join(repo, "ctrl/qryn/sql/sql.go"))
@@ -508,6 +533,7 @@ func genMigrations() (string, error) {
 		return "", err
 	}
 	migVersionRead, migLoopShape = "", nil
+	migResetInventory()
 	boots, err := extractUpdateScripts(f)
 	if err != nil {
 		return "", err
@@ -522,7 +548,7 @@ func genMigrations() (string, error) {
 	}
 	nt := &nameTable{ids: map[string]int{}}
 	var b strings.Builder
-	b.WriteString("import Qryn.Ctrl.Migrate\nnamespace Qryn.Gen.Migrations\nopen Qryn.Ctrl.Migrate\n\n")
+	b.WriteString("import Qryn.Ctrl.MigrateCluster\nnamespace Qryn.Gen.Migrations\nopen Qryn.Ctrl.Migrate\n\n")
 	fmt.Fprintf(&b, "/-- the four literals of `getSQLFile`: every match of the first two regular expressions is deleted, the text is split\n    on the third, every piece is trimmed of the characters of the fourth, empty pieces are dropped -/\n")
 	fmt.Fprintf(&b, "def splitRule : List String := [%s, %s, %s, %s]\n\n", leanStr(rule.Blank), leanStr(rule.Comment), leanStr(rule.Sep), leanStr(rule.Trim))
 
@@ -531,6 +557,10 @@ func genMigrations() (string, error) {
 		shape = append(shape, leanStr(x))
 	}
 	fmt.Fprintf(&b, "/-- `updateScripts`: the format of the version read, and the script loop (header, then its statements with\n    logger calls dropped and `if err != nil { …; return err }` normalised) -/\ndef versionRead : String := %s\ndef loopShape : List String := [%s]\n\n", leanStr(migVersionRead), strings.Join(shape, ",\n  "))
+	if migVerTables[1] == "" {
+		migVerTables[1] = migVerTables[0] // no assignment in the cluster branch: the local table is read
+	}
+	fmt.Fprintf(&b, "/-- the table the version is read from (`verTable`): without a cluster, with a configured cluster -/\ndef verTables : List String := [%s, %s]\n\n", leanStr(migVerTables[0]), leanStr(migVerTables[1]))
 	// CREATE DATABASE (cluster clause instantiated like InitDBTry does)
 	var body strings.Builder
 	for _, m := range migModes {
@@ -544,11 +574,12 @@ func genMigrations() (string, error) {
 			return "", fmt.Errorf("InitDBTry statement %q: %v", q, err)
 		}
 		fmt.Fprintf(&body, "def initdb_%s : List Stmt := [%s]\n", m.Name, nt.leanStmt(st))
+		fmt.Fprintf(&body, "def createDb_%s : CStmt := ⟨%s, %s⟩\n", m.Name, nt.leanStmt(st), leanBool(st.OnCluster))
 	}
 	// bootstrap statements per mode
 	for _, m := range migModes {
 		env := envFor(m)
-		var items []string
+		var items, ocs []string
 		for _, bl := range boots {
 			if bl.cluster && m.Cluster == "" {
 				continue
@@ -562,8 +593,14 @@ func genMigrations() (string, error) {
 				return "", fmt.Errorf("bootstrap statement %q: %v", q, err)
 			}
 			items = append(items, nt.leanStmt(st))
+			ocs = append(ocs, leanBool(st.OnCluster))
+			migUse(fmt.Sprintf("bootstrap#%d", len(items)), bl.tpl)
+			if err := migGridCheck(bl.tpl, m, st, fmt.Sprintf("bootstrap#%d", len(items))); err != nil {
+				return "", err
+			}
 		}
 		fmt.Fprintf(&body, "def boot_%s : List Stmt := [%s]\n", m.Name, strings.Join(items, ",\n  "))
+		fmt.Fprintf(&body, "def boot_oc_%s : List Bool := [%s]\n", m.Name, strings.Join(ocs, ", "))
 	}
 	// script files
 	type fileInfo struct{ v, file, base string }
@@ -594,7 +631,7 @@ func genMigrations() (string, error) {
 		counts[fi.file] = len(scripts)
 		for _, m := range migModes {
 			env := envFor(m)
-			var items []string
+			var items, ocs []string
 			for i, sc := range scripts {
 				q, err := renderTpl(sc, env)
 				if err != nil {
@@ -605,8 +642,21 @@ func genMigrations() (string, error) {
 					return "", fmt.Errorf("%s#%d (%s): %v", fi.file, i+1, m.Name, err)
 				}
 				items = append(items, fmt.Sprintf("/- %s#%d -/ %s", fi.file, i+1, nt.leanStmt(st)))
+				ocs = append(ocs, leanBool(st.OnCluster))
+				migUse(fmt.Sprintf("%s#%d", fi.file, i+1), sc)
+				// the parameters may change the identity of an object's text and nothing else
+				if err := migGridCheck(sc, m, st, fmt.Sprintf("%s#%d", fi.file, i+1)); err != nil {
+					return "", err
+				}
+				if st.Op == "create" {
+					if prev, dup := migBodies[m.Name][st.Body]; dup {
+						return "", fmt.Errorf("%s#%d (%s): text identity %d collides with %s", fi.file, i+1, m.Name, st.Body, prev)
+					}
+					migBodies[m.Name][st.Body] = fmt.Sprintf("%s#%d", fi.file, i+1)
+				}
 			}
 			fmt.Fprintf(&body, "def %s_%s : List Stmt := [\n  %s]\n", fi.base, m.Name, strings.Join(items, ",\n  "))
+			fmt.Fprintf(&body, "def %s_oc_%s : List Bool := [%s]\n", fi.base, m.Name, strings.Join(ocs, ", "))
 		}
 	}
 	// names
@@ -618,12 +668,19 @@ func genMigrations() (string, error) {
 	b.WriteString(body.String())
 	b.WriteString("\n")
 	sel := func(prefix string) string {
-		return fmt.Sprintf("match m with | .single => %s_single | .replicated => %s_replicated | .clustered => %s_clustered", prefix, prefix, prefix)
+		var arms []string
+		for _, m := range migModes {
+			arms = append(arms, fmt.Sprintf("| .%s => %s_%s", m.Ctor, prefix, m.Name))
+		}
+		return "match m with " + strings.Join(arms, " ")
 	}
 	fmt.Fprintf(&b, "def initdb (m : Mode) : List Stmt := %s\n", sel("initdb"))
 	fmt.Fprintf(&b, "def boot (m : Mode) : List Stmt := %s\n", sel("boot"))
+	fmt.Fprintf(&b, "def createDb (m : Mode) : CStmt := %s\n", sel("createDb"))
+	fmt.Fprintf(&b, "def boot_oc (m : Mode) : List Bool := %s\n", sel("boot_oc"))
 	for _, fi := range files {
 		fmt.Fprintf(&b, "def %s (m : Mode) : List Stmt := %s\n", fi.base, sel(fi.base))
+		fmt.Fprintf(&b, "def %s_oc (m : Mode) : List Bool := %s\n", fi.base, sel(fi.base+"_oc"))
 	}
 	// streams in the order of Update: (key, file, cluster-only)
 	var sl []string
@@ -638,7 +695,7 @@ func genMigrations() (string, error) {
 	}
 	fmt.Fprintf(&b, "\n/-- the whole extracted table for a mode: CREATE DATABASE, bootstrap statements, all six files -/\ndef table (m : Mode) : List Stmt := initdb m ++ boot m ++ %s\n", strings.Join(all, " ++ "))
 	// the program
-	b.WriteString("\n/-- `InitDBTry` followed by `Update` for a mode -/\ndef program (m : Mode) : List Phase :=\n  [⟨initdb m, none⟩")
+	b.WriteString("\n/-- `InitDBTry` followed by `Update` without a configured cluster -/\ndef program (m : Mode) : List Phase :=\n  [⟨initdb m, none⟩")
 	for i, s := range streams {
 		if s.distOnly {
 			continue
@@ -646,12 +703,40 @@ func genMigrations() (string, error) {
 		fmt.Fprintf(&b, ",\n   ⟨boot m, some (%d, %s m)⟩", s.k, files[i].base)
 	}
 	b.WriteString("]\n")
-	// clustered: all streams in order
-	b.WriteString("\ndef programClustered : List Phase :=\n  [⟨initdb .clustered, none⟩")
+	// with a cluster: all streams in order
+	b.WriteString("\n/-- … and with one (`CLUST_MODE_DISTRIBUTED`) -/\ndef programClustered (m : Mode) : List Phase :=\n  [⟨initdb m, none⟩")
 	for i, s := range streams {
-		fmt.Fprintf(&b, ",\n   ⟨boot .clustered, some (%d, %s .clustered)⟩", s.k, files[i].base)
+		fmt.Fprintf(&b, ",\n   ⟨boot m, some (%d, %s m)⟩", s.k, files[i].base)
 	}
-	b.WriteString("]\n\n/-- what a start executes in each mode -/\ndef prog : Mode → List Phase\n  | .clustered => programClustered\n  | m => program m\n")
+	b.WriteString("]\n\n/-- a cluster name is configured -/\ndef isDist : Mode → Bool\n")
+	for _, m := range migModes {
+		fmt.Fprintf(&b, "  | .%s => %s\n", m.Ctor, leanBool(m.Cluster != ""))
+	}
+	b.WriteString("\n/-- what a start executes in each mode -/\ndef prog (m : Mode) : List Phase := if isDist m then programClustered m else program m\n")
+	// the same with the ON CLUSTER flags: what the cluster model executes
+	b.WriteString("\ndef cz (ss : List Stmt) (oc : List Bool) : List CStmt := List.zipWith CStmt.mk ss oc\n")
+	b.WriteString("\n/-- the `updateScripts` calls of `Update` with, for every statement, whether its instantiated text carries `ON CLUSTER` -/\ndef cphases (m : Mode) : List CPhase :=\n  if isDist m then [")
+	for i, s := range streams {
+		if i > 0 {
+			b.WriteString(",\n    ")
+		}
+		fmt.Fprintf(&b, "⟨cz (boot m) (boot_oc m), some (%d, cz (%s m) (%s_oc m))⟩", s.k, files[i].base, files[i].base)
+	}
+	b.WriteString("]\n  else [")
+	first := true
+	for i, s := range streams {
+		if s.distOnly {
+			continue
+		}
+		if !first {
+			b.WriteString(",\n    ")
+		}
+		first = false
+		fmt.Fprintf(&b, "⟨cz (boot m) (boot_oc m), some (%d, cz (%s m) (%s_oc m))⟩", s.k, files[i].base, files[i].base)
+	}
+	b.WriteString("]\n\n/-- `ctrl.Init` for one database: `skip` = the database name is \"\" or `default` (InitDB returns at once) -/\n")
+	b.WriteString("def cprog (m : Mode) (skip : Bool) : CProg := ⟨isDist m, skip, createDb m, cphases m⟩\n")
+	b.WriteString(migInventory())
 	b.WriteString("end Qryn.Gen.Migrations\n")
 	return b.String(), nil
 }
